@@ -4,4 +4,4 @@ import supcheck
 
 
 def run(ctx):
-    supcheck.run(ctx, "C03", kinds="shutdown,api,deps,stopstart", n_quick=160, n_thorough=1600)
+    supcheck.run(ctx, "C03", kinds="shutdown,api,deps,stopstart,ordered", n_quick=180, n_thorough=1600)
